@@ -19,7 +19,15 @@ func VerifC02History() {
 		if symx.Cfg("commits", 0) == 1 && symx.Bool(symx.N("commit", i)) {
 			vRootOf(t) // batching into commits must not matter
 		}
-		if symx.Bool(symx.N("remove", i)) {
+		remove := false
+		switch vDigit("kinds", i, n) { // 0 insert, 1 remove, otherwise symbolic
+		case 0:
+		case 1:
+			remove = true
+		default:
+			remove = symx.Bool(symx.N("remove", i))
+		}
+		if remove {
 			symx.Assert(t.Remove(vCtx, key) == nil, "Remove failed")
 			ref.del(key)
 		} else {
